@@ -228,21 +228,21 @@ func runScript(sc *Scenario, ro runOpts) *runResult {
 				switch {
 				case op.Kind == OpStopClock:
 					// StopTimeoutClock polls every p/2 and needs the clock task to notice: 5p + 2T (+ scheduling slack)
-					if fair && cfg.StallProb == 0 {
+					if fair && cfg.StallProb == 0 && cfg.SyncStallProb == 0 {
 						vDead = r.T0 + 5*p + 2*tickNs + cfg.Jitter*3 + (400+2*schedSlack)*maxCost
 					}
 				case op.Kind == OpIdle:
 				case d > 0 && r.WantCapped:
 					// a catastrophic timed call: must end in a timeout
 					pre := int64(12*len(op.In.Text()) + 600) // steps spent decoding the input before the deadline is set
-					if fair && cfg.StallProb == 0 {
+					if fair && cfg.StallProb == 0 && cfg.SyncStallProb == 0 {
 						vDead = r.T0 + d + 3*p + 2*tickNs + cfg.Jitter + pre*sumCost + 2*schedSlack*maxCost
 					} else {
 						q := cfg.Quantum
 						if q == 0 {
 							q = 1 << 20
 						}
-						vDead = r.T0 + d + 12*p + 4*tickNs + 8*cfg.Jitter + 8*cfg.StallMax + (pre+40*(nCl+2)*q)*maxCost
+						vDead = r.T0 + d + 12*p + 4*tickNs + 8*cfg.Jitter + 8*cfg.StallMax + 40*cfg.SyncStallMax + (pre+40*(nCl+2)*q)*maxCost
 					}
 				case !r.WantCapped:
 					stepLim = 20*r.WantSteps + 20000
@@ -270,7 +270,7 @@ func runScript(sc *Scenario, ro runOpts) *runResult {
 			// max(t_ret+d) + 1s + 3p + 3T + jitter (+ injected stalls) -- DESIGN §3 C14
 			if vsim.ClientFinished() == len(sc.Clients) {
 				if end := vsim.NoteMax(0); end > 0 {
-					vsim.SetWorldVLimit(end + int64(time.Second) + 3*p + 3*tickNs + 2*cfg.Jitter + 2*cfg.StallMax + (400+2*schedSlack)*maxCost)
+					vsim.SetWorldVLimit(end + int64(time.Second) + 3*p + 3*tickNs + 2*cfg.Jitter + 2*cfg.StallMax + 8*cfg.SyncStallMax + (400+2*schedSlack)*maxCost)
 				}
 			}
 			// results handed out earlier must still read the same
